@@ -318,7 +318,16 @@ func (p *poller) readWriteLoop() {
 								continue
 							}
 							onConnected(c, nil)
-							c.resetRead()
+							// the callback may have left data in the write
+							// queue: the write event is dropped only when
+							// there is nothing to flush.
+							c.mux.Lock()
+							if len(c.writeList) == 0 {
+								c.resetRead()
+							} else if isOneshot && !c.closed {
+								_ = p.modWrite(fd)
+							}
+							c.mux.Unlock()
 						}
 					}
 
